@@ -6,7 +6,7 @@ LEVEL = "model_checking"
 MANIFEST = {
     "engine": "tlc rule table + vhtree c44 + tlc trace validation (DiffTreeTrace)",
     "technique": "flat-map diff semantics in TLA+ evaluated by TLC over all pairs of small trees whose names sort around '/'; every pair replayed into object.DiffTreeWithOptions, merkletrie.DiffTree over index / tree / worktree noders and git diff-tree -r --no-renames; go-git's rename-detecting output is recorded and judged by TLC with the admissibility predicate",
-    "text": "Exhaustive within the bound: all ordered pairs of trees inside each sub-domain of MCDiffTree.tla (paths a-b a.b a|a/b|a/c a0 ab; leaves regular/executable/symlink/gitlink, two contents and the empty blob). For each pair the change set computed by TLC (Diff) is compared with four go-git diffs and with git; with rename detection on, TLC checks that splitting every reported rename into its deletion and insertion gives exactly Diff(A,B), no path is used twice and applying the changes to A yields B. Spec theorems (Apply(A,Diff(A,B))=B, symmetry, one change per path, file<->directory swaps are delete+insert) are TLC invariants.",
+    "text": "Exhaustive within the bound: all ordered pairs of trees inside each sub-domain of MCDiffTree.tla (paths a-b a.b a|a/b|a/c a0 ab; leaves regular/executable/symlink/gitlink, two contents and the empty blob). For each pair the change set computed by TLC (Diff) is compared with four go-git diffs and with git; with rename detection on - run with every option record the row carries (RenameLimit 0/1/3, OnlyExactRenames; in the rename sub-domains, where one blob sits at several old and several new paths) - TLC checks that splitting every reported rename into its deletion and insertion gives exactly Diff(A,B) whatever the options, no path is used twice and applying the changes to A yields B. Spec theorems (Apply(A,Diff(A,B))=B, symmetry, one change per path, file<->directory swaps are delete+insert; every re-pairing of deletions with insertions is admissible and dropping any change never is) are TLC invariants.",
     "note": "Trees are written by git mktree and read back by go-git; the worktree leg uses a real directory (osfs). Rename *choice* (which deletion is paired with which insertion, similarity scores) is deliberately not compared with git -M: only admissibility is required. Trees deeper than one directory level, more than 5 leaf paths, unsorted or duplicate-carrying trees and ignore rules in the worktree noder are not covered.",
 }
 
@@ -16,7 +16,7 @@ NEXT Next
 %s
 CHECK_DEADLOCK FALSE
 """
-INV = "INVARIANTS Complete Minimal OnePerPath Symmetric WellFormed SwapIsDelIns NoRenameAdmissible"
+INV = "INVARIANTS Complete Minimal OnePerPath Symmetric WellFormed SwapIsDelIns NoRenameAdmissible AnyRepairingAdmissible DroppingIsInadmissible"
 
 # corrupted records the trace spec must reject (self-test of the predicate, DESIGN 2.5)
 SYNTH = [
@@ -42,7 +42,7 @@ def run(ctx):
     # --- batch trace validation: TLC judges go-git's rename-detecting output
     with open(ren, "a") as f:
         for a, b, out, _ in SYNTH:
-            f.write(json.dumps({"a": a, "b": b, "out": out}) + "\n")
+            f.write(json.dumps({"a": a, "b": b, "o": {"limit": 1, "exact": False, "score": 60}, "out": out}) + "\n")
     recs = [json.loads(l) for l in open(ren)]
     t = ctx.tlc("MCDiffTree", cfg="MCDiffTree_trace.cfg", cfg_text=CFG % (cfgs, "FALSE", ren, "TInit", ""),
                 timeout=3000, count=False)
@@ -50,6 +50,7 @@ def run(ctx):
     if v["n"] != len(recs) or len(recs) != n_real + len(SYNTH):
         raise vlib.ToolingError("trace validation saw %s records, %d were recorded" % (v["n"], len(recs)))
     bad = {b["i"]: b["why"] for b in v["bad"]}
+    oclass = {b["i"]: b["oc"] for b in v["bad"]}
     for k, (_, _, _, why) in enumerate(SYNTH):
         got = bad.pop(n_real + k + 1, None)
         if not got or why not in got:
@@ -58,13 +59,13 @@ def run(ctx):
         rec = recs[i - 1]
         a = ",".join("%s=%s" % kv for kv in sorted(rec["a"].items()) if kv[1] != "-")
         b = ",".join("%s=%s" % kv for kv in sorted(rec["b"].items()) if kv[1] != "-")
-        ctx.diverge("DiffTree:renames|inadmissible|" + "+".join(sorted(why)),
-                    "DiffTreeWithOptions(DefaultDiffTreeOptions) on %s -> %s returned %s: %s" % (a, b, json.dumps(rec["out"]), ", ".join(why)),
-                    {"a": rec["a"], "b": rec["b"], "out": rec["out"], "why": why})
+        ctx.diverge("DiffTree:renames|inadmissible|" + "+".join(sorted(why)) + "|" + oclass[i],
+                    "DiffTreeWithOptions(DetectRenames, %s) on %s -> %s returned %s: %s" % (json.dumps(rec["o"]), a, b, json.dumps(rec["out"]), ", ".join(why)),
+                    {"a": rec["a"], "b": rec["b"], "options": rec["o"], "out": rec["out"], "why": why})
     ctx.cov["rename_outputs_with_renames"] = v.get("renames", 0)
     ctx.cov["bounds"] = {"sub_domains": cfgs, "pairs": rep.get("distinct"), "trees": rep.get("extra", {}).get("trees"),
                          "legs": ["object.DiffTreeWithOptions(nil)", "merkletrie index-index", "merkletrie tree-index",
-                                  "merkletrie index-worktree", "object.DiffTreeWithOptions(renames) -> TLC", "git diff-tree -r --no-renames"]}
+                                  "merkletrie index-worktree", "object.DiffTreeWithOptions(renames; RenameLimit 0/1/3, OnlyExactRenames) -> TLC", "git diff-tree -r --no-renames"]}
     ctx.cov["exhaustive"] = True
     ctx.cov["rule"] = ("every ordered pair of trees within a sub-domain of spec/rules/MCDiffTree.tla is one TLC state; distinct = distinct pairs; "
                        "non-trivial = each pair is diffed by four go-git paths and by git and each change set is compared with TLC's Diff; "
